@@ -5,6 +5,8 @@
   VALID-REL    a truthy verdict implies an equality comparison (the order relation of that family's arm), except where the
                cofactor was tested to be 1 (G1) or the curve is in the reviewed table of GT-strong identifiers
   EXP-RED      the integer handed to the Frobenius decomposition of an exponent was reduced modulo the group order (bn_mod)
+  SM-SIGN      every exponentiation/multiplication front end of the three groups honours the sign of its exponent on every path
+               (sign test, reduction modulo the order, delegation)
   EXP-SIGN     a fast path that takes the low digit of the exponent as the whole exponent consults its sign
   VALID-SHORTCUT  a branch keyed on the curve identifier (ctx->ep_id == K) inside a predicate is only live for the curve it
                was reviewed for: the curve that K names in the identifier enum of relic_ep.h is either that curve or
@@ -390,7 +392,11 @@ def analyse(ctx, prog, chk):
             found += 1
             n += analyse_predicate(ctx, prog, chk, fn, PREDICATES[base])
     nred, nsign = rule_exp(ctx, prog, chk)
-    return {"predicates": found, "obligations": n, "red": nred, "sign": nsign}
+    from .. import expsib
+    famre = re.compile(r"^(g1_mul|g2_mul|gt_exp)(_\w+)?$")
+    fam = [fn for fn in prog.all if famre.match(fn.name.split("__")[-1]) and (fn.rfile.endswith("pc/relic_pc_exp.c") or "selftest" in fn.file)]
+    nsm = expsib.rule_sm_sign(ctx, prog, chk, fam, famre)
+    return {"predicates": found, "obligations": n, "red": nred, "sign": nsign, "smsign": nsm}
 
 
 def selfcheck(ctx, prog, chk):
@@ -402,6 +408,7 @@ def run(ctx, chk):
     chk.floor("VALID-CURVE", "validity predicates (BASE)", c["predicates"], 3)
     chk.floor("EXP-RED", "Frobenius decompositions of exponents", c["red"], 4)
     chk.floor("EXP-SIGN", "digit fast paths", c["sign"], 4)
+    chk.floor("SM-SIGN", "exponent parameters of the G1/G2/GT front ends", c["smsign"], 10)
     analyse(ctx, ctx.program("P381"), chk)
     if chk.tier == "thorough":
         from .. import facts
